@@ -103,6 +103,16 @@ impl ParamsRoot {
 }
 impl DynafedRoot {
     pub open spec fn view(&self) -> Seq<u8> { self.0@ }
+//@extract file=src/internal_macros.rs fn=from_byte_array in="macro_rules ! impl_sha256_midstate_wrapper"
+//@ret r
+//@spec
+//@|     ensures r@ == inner@
+//@end
+//@extract file=src/internal_macros.rs fn=to_byte_array in="macro_rules ! impl_sha256_midstate_wrapper"
+//@ret r
+//@spec
+//@|     ensures r@ == self@
+//@end
 //@extract file=src/internal_macros.rs fn=from_midstate in="macro_rules ! impl_sha256_midstate_wrapper"
 //@ret r
 //@spec
@@ -161,6 +171,21 @@ impl Params {
 //@ret r
 //@spec
 //@|     ensures r == (*self is Null)
+//@end
+//@extract file=src/dynafed.rs fn=is_compact in="impl Params"
+//@ret r
+//@spec
+//@|     ensures r == (*self is Compact)
+//@end
+//@extract file=src/dynafed.rs fn=is_full in="impl Params"
+//@ret r
+//@spec
+//@|     ensures r == (*self is Full)
+//@end
+//@extract file=src/dynafed.rs fn=elided_root in="impl Params"
+//@ret r
+//@spec
+//@|     ensures match *self { Params::Compact { elided_root, .. } => r == Some(&elided_root), _ => r is None }
 //@end
 //@extract file=src/dynafed.rs fn=signblockscript in="impl Params"
 //@ret r
